@@ -2127,8 +2127,57 @@ def summaries_used(summaries):
 RC = 'm_RunningCount'
 
 
-def running_count_event(tu, n):
-    """('inc'|'dec'|'rmw', task access path) for AtomicAdd(&X->m_RunningCount, c)"""
+_RC_HELPERS = {}
+
+
+def rc_helper(tu, cf):
+    """(parameter index, 'inc'|'dec') if the function cf of the analysed tree adds +1 / -1 to the running count of the task
+    passed as that parameter exactly once on every path that returns (whatever else it does: signalling, bookkeeping),
+    None if it does not touch a running count, 'und' if it touches one in another way"""
+    key_ = (id(tu), cf['id'])
+    if key_ in _RC_HELPERS:
+        return _RC_HELPERS[key_]
+    _RC_HELPERS[key_] = None
+    g = tu.cfg(cf)
+    if g is None or cf.get('virt'):
+        return None
+    evs = {}
+    for b, i, n in g.stmts():
+        if n.get('kind') == 'CallExpr':
+            ev = running_count_event(tu, n, follow=False)
+            if ev is not None:
+                evs[n['id']] = ev
+    if not evs:
+        return None
+    res = 'und'
+    pps = {param_path(p_): k for k, p_ in enumerate(cf.get('params', []))}
+    kinds = {e[0] for e in evs.values()}
+    tasks = {e[1] for e in evs.values()}
+    if len(kinds) == 1 and len(tasks) == 1 and next(iter(kinds)) in ('inc', 'dec') and next(iter(tasks)) in pps:
+        exits, _ = count_paths(tu, g, {i: 1 for i in evs}, None, 'P')
+        if exits and all(cnt == 1 for cnt, sg, unk in exits):
+            pk = pps[next(iter(tasks))]
+            if all(is_rvalue_read(tu, r) for r in refs_to(tu, cf, cf['params'][pk]['id'])):
+                res = (pk, next(iter(kinds)))
+    _RC_HELPERS[key_] = res
+    return res
+
+
+def running_count_event(tu, n, follow=True):
+    """('inc'|'dec'|'rmw', task access path) for AtomicAdd(&X->m_RunningCount, c), directly or through a helper that does
+    exactly that with one of its parameters"""
+    if follow and n.get('kind') in CALLS and tu.sd(n).get('q') != 'enki::AtomicAdd':
+        cf = tu.callee_fn(n)
+        if cf is not None and tu.cfg(cf) is not None and not cf.get('virt') and \
+                tu.sd(n).get('q', '') not in (TS + 'SplitAndAddTask', TS + 'TryRunTask', TS + 'AddTaskSetToPipe'):
+            h = rc_helper(tu, cf)
+            if h == 'und':
+                return ('rmw', None)
+            if h is not None:
+                s_, obj, args = tu.call_parts(n)
+                if h[0] < len(args):
+                    return (h[1], access_path(tu, args[h[0]]))
+        return None
     if n.get('kind') != 'CallExpr' or tu.sd(n).get('q') != 'enki::AtomicAdd':
         return None
     args = tu.kids(n)[1:]
@@ -2286,6 +2335,116 @@ def check_wait_for_task(ctx, tu):
                       loc, key='%s|%s|TaskScheduler::WaitforTask|early-return' % (R, F_ENKI))
     else:
         ctx.ok(R, inst, 'for a non-null task every return follows an observation of m_RunningCount == 0', loc)
+    check_wait_sleep(ctx, tu, f, g, classify)
+
+
+BLOCKING = ('enki::SemaphoreWait',)
+OTHER_BLOCKING = ('std::condition_variable::wait', 'std::condition_variable_any::wait', 'pthread_cond_wait', 'sem_wait',
+                  'std::this_thread::sleep_for', 'std::this_thread::sleep_until', 'usleep', 'nanosleep')
+
+
+def check_wait_sleep(ctx, tu, f, g, classify):
+    """A join that goes to sleep must not lose the wake-up: if the thread that completes the last partition posts the
+    semaphore only for waiters that have registered (post count read from a counter), the waiter has to register first and
+    then look at the running count again before it blocks.  Otherwise the last partition can finish between the waiter's
+    test and its registration: nobody posts, the waiter sleeps for good and parallel_for never returns."""
+    R = 'R-C01-2'
+    inst = '[INTERNAL] TaskScheduler::WaitforTask'
+    loc = tu.fn_loc(f)
+    key = lambda d: '%s|%s|TaskScheduler::WaitforTask|%s' % (R, F_ENKI, d)
+    waits = [(b, i, n) for b, i, n in g.stmts() if n.get('kind') in CALLS and tu.sd(n).get('q') in BLOCKING]
+    other = [n for b, i, n in g.stmts() if n.get('kind') in CALLS and tu.sd(n).get('q') in OTHER_BLOCKING]
+    if other:
+        ctx.undecided(R, inst, 'the join blocks in `%s`, a form of waiting that is not analysed' % tu.sd(other[0]).get('q'), loc)
+        return
+    if not waits:
+        return                     # pure spinning / helping: nothing can be lost
+    # all posts of the unit, by semaphore
+    posts = {}
+    for pf_ in tu.functions.values():
+        pg = tu.cfg(pf_)
+        if pf_['dep'] or pg is None:
+            continue
+        for b, i, n in pg.stmts():
+            if n.get('kind') in CALLS and tu.sd(n).get('q') == 'enki::SemaphoreSignal':
+                a_ = tu.kids(n)[1:]
+                if len(a_) == 2:
+                    posts.setdefault(access_path(tu, a_[0]), []).append((pf_, pg, b, i, n, a_[1]))
+    for wb, wi, w in waits:
+        sem = access_path(tu, tu.kids(w)[1]) if len(tu.kids(w)) > 1 else None
+        ps = posts.get(sem, [])
+        if sem is None or not ps:
+            ctx.undecided(R, inst, 'the join sleeps on `%s` but no post of that semaphore is found in the scheduler'
+                          % (tu.show(tu.kids(w)[1]) if len(tu.kids(w)) > 1 else '?'), tu.loc(w))
+            continue
+        counters = set()
+        for pf_, pg, b, i, n, cnt in ps:
+            cv = const_value(tu, cnt)
+            if cv is not None and cv >= 1:
+                continue                          # always posts: the semaphore remembers it
+            cp = access_path(tu, cnt)
+            if cp is None or cp[0] != 'this' or len(cp) != 2:
+                counters.add(None)
+            else:
+                counters.add(cp)
+        if not counters:
+            ctx.ok(R, inst, 'sleeps on %s; every post is unconditional' % path_str(sem), tu.loc(w))
+            continue
+        if None in counters or len(counters) != 1:
+            ctx.undecided(R, inst, 'the number of posts of %s is computed in a form that is not recognised' % path_str(sem), tu.loc(w))
+            continue
+        ctr = next(iter(counters))
+        # the poster must decrement the running count before it reads the counter
+        okpost = True
+        for pf_, pg, b, i, n, cnt in ps:
+            decs = [(b2, i2) for b2, i2, n2 in pg.stmts() if n2.get('kind') in CALLS and
+                    (running_count_event(tu, n2, follow=False) or (None,))[0] == 'dec']
+            if not any(pg.dominates((b2.id, i2), (b.id, i)) for b2, i2 in decs):
+                okpost = False
+        if not okpost:
+            ctx.undecided(R, inst, 'a post of %s is not preceded by the decrement of the running count in the same function'
+                          % path_str(sem), tu.loc(w))
+            continue
+        wpos = (wb.id, wi)
+        regs = []
+        for b, i, n in g.stmts():
+            if n.get('kind') == 'CallExpr' and tu.sd(n).get('q') == 'enki::AtomicAdd':
+                a_ = tu.kids(n)[1:]
+                a0 = leaf(tu, a_[0]) if a_ else None
+                if a0 is not None and a0.get('kind') == 'UnaryOperator' and a0.get('opcode') == '&' and \
+                        access_path(tu, tu.kids(a0)[0]) == ctr and const_value(tu, a_[1]) == 1 and g.dominates((b.id, i), wpos):
+                    regs.append((b.id, i))
+            elif n.get('kind') == 'UnaryOperator' and n.get('opcode') == '++' and access_path(tu, tu.kids(n)[0]) == ctr and \
+                    g.dominates((b.id, i), wpos):
+                regs.append((b.id, i))
+        cname = path_str(ctr)
+        if not regs:
+            ctx.violation(R, inst, 'the join blocks in SemaphoreWait(%s) without having registered in `%s`, but the thread that '
+                          'completes the last partition posts only `%s` times: the post can be missing and parallel_for never returns'
+                          % (path_str(sem), cname, cname), tu.loc(w), key=key('sleep-without-recheck'))
+            continue
+        dom = g.dominators()
+        recheck = False
+        for blk in g.blocks.values():
+            if blk.cond is None or len(blk.succ) != 2:
+                continue
+            c = classify(tu.node(blk.cond))
+            if c is None or c[0] != 'zero':
+                continue
+            cpos = (blk.id, len(blk.el))
+            if any(g.dominates(r, cpos) for r in regs) and blk.id in dom.get(wb.id, ()) :
+                # the wait must lie on the branch taken when the count is not yet zero
+                zero_succ = blk.succ[0] if c[1] else blk.succ[1]
+                if zero_succ is None or zero_succ not in dom.get(wb.id, ()):
+                    recheck = True
+        if recheck:
+            ctx.ok(R, inst, 'registers in %s, re-reads m_RunningCount and only then sleeps on %s' % (cname, path_str(sem)), tu.loc(w))
+        else:
+            ctx.violation(R, inst, 'lost wake-up: the join tests m_RunningCount, then registers in `%s`, then blocks in '
+                          'SemaphoreWait(%s) without looking at the count again, while the thread that completes the last partition '
+                          'posts only `%s` times. If the last partition finishes between the test and the registration, the completer '
+                          'reads 0 waiters and posts nothing; the waiter then sleeps for good and parallel_for never returns'
+                          % (cname, path_str(sem), cname), tu.loc(w), key=key('sleep-without-recheck'))
 
 
 # =====================================================================================================
@@ -2325,6 +2484,12 @@ def implies_le(conds, x, y, depth=0):
             return True
     if depth > 4:
         return False
+    # cancel what both sides have in common:  s + a <= s + b  iff  a <= b
+    pos = Lin({a_: c_ for a_, c_ in d.t.items() if c_ > 0}, d.c if d.c > 0 else 0)
+    neg = Lin({a_: -c_ for a_, c_ in d.t.items() if c_ < 0}, -d.c if d.c < 0 else 0)
+    if (pos != x or neg != y) and (pos.t or neg.t):
+        if implies_le(conds, pos, neg, depth + 1):
+            return True
     xa = x.single_atom()
     if xa is not None and xa[0] == 'min' and any(implies_le(conds, m, y, depth + 1) for m in xa[1]):
         return True
@@ -2447,7 +2612,7 @@ def make_split_summary(tu, split_fn):
             return True
         ev = running_count_event(tu, c)
         if ev is not None:
-            st.events.append((ev[0], c['id'], st.read(ev[1])))
+            st.events.append((ev[0], c['id'], st.read(ev[1]) if ev[1] is not None else None))
             return True
         if q.endswith('::WriterTryWriteFront'):
             s_, obj, args = call_args(tu, c)
@@ -2736,8 +2901,14 @@ def check_split_and_add(ctx, tu, split_fn):
         if xs != s0:
             bad.append(('cover-start', 'the consumed partition starts at `%r`, not at the start `%r` of the remaining range' % (xs, s0)))
         if ss != xe:
-            bad.append(('cover-adjacent', 'after the iteration the remaining range starts at `%r` but the consumed partition ends at `%r`: '
-                        'indices are run twice or never' % (ss, xe)))
+            if implies_le(st.conds, xe, ss):
+                how = 'the indices in between are neither queued nor run (they are lost)'
+            elif implies_le(st.conds, ss, xe):
+                how = 'the indices in between are run again later (they run twice)'
+            else:
+                how = 'indices are run twice or never'
+            bad.append(('cover-adjacent', 'after the iteration the remaining range starts at `%r` but the partition that was consumed '
+                        '(published or run inline) ends at `%r`: %s' % (ss, xe, how)))
         if se != e0:
             bad.append(('cover-end', 'the end of the remaining range changes from `%r` to `%r`' % (e0, se)))
         ln = xe - xs
@@ -3931,6 +4102,20 @@ def refs_inside(tu, fn, declid):
             n.get('referencedDecl', {}).get('id') == declid]
 
 
+def smallest_n(pred, M):
+    """smallest x in [1, M] with pred(x), for a predicate that is monotone in x (M if none is found)"""
+    lo_, hi_ = 1, M
+    if not pred(hi_):
+        return M
+    while lo_ < hi_:
+        mid = (lo_ + hi_) // 2
+        if pred(mid):
+            hi_ = mid
+        else:
+            lo_ = mid + 1
+    return lo_
+
+
 def check_blocks(ctx, tu, cfgname):
     R = 'R-C01-4'
     n_inst = 0
@@ -4034,10 +4219,16 @@ def check_blocks(ctx, tu, cfgname):
         lo = rng[0] if 'N' in signs else (0 if 'Z' in signs else 1)
         iv = Ival(tu, {ppath: (lo, M)}, defs, None)
         iv.ev(args[0])
+
+        def count_wraps(nhi):
+            iv_ = Ival(tu, {ppath: (min(lo, nhi), nhi)}, defs, None)
+            iv_.ev(args[0])
+            return {w_[0]['id'] for w_ in iv_.wraps}
         for wn, wiv, wt in iv.wraps:
+            thr = smallest_n(lambda x: wn['id'] in count_wraps(x), M)
             bad.append(('blocks-wrap', 'computing the block count, `%s` can reach %d, beyond the range of its type %s '
-                        '(for n > %d): the block count wraps (unsigned) or overflows (signed) and indices near the end are never run'
-                        % (show(tu, wn), wiv[1], wt, irange(wt)[1] - (wiv[1] - M) if wiv[1] > irange(wt)[1] else M)))
+                        '(for counts n >= %d): the block count wraps (unsigned) or overflows (signed) and indices near the end are never run'
+                        % (show(tu, wn), wiv[1], wt, thr)))
         # ---- the lambda: begin / end / fcn(begin, end)
         lg = tu.cfg(lamf)
         fcalls = []
@@ -4090,28 +4281,34 @@ def check_blocks(ctx, tu, cfgname):
                     und.append('block end `%r` is not recognised as min(begin + B, n)' % END)
             # wrap-around inside the lambda
             if cf is not None and cf[0] == 'ok' and not und:
-                maxb = (M - 1) // B
-                maxbegin = maxb * B
+                def lambda_wraps(nhi):
+                    """(wrapped nodes, how many of them belong to the computation of the block begin) for counts 1..nhi"""
+                    maxb = (nhi - 1) // B
+                    maxbegin = maxb * B
 
-                def special(L):
-                    if L == N - want_b:
-                        return (1, M)
-                    if L == want_b:
-                        return (0, maxbegin)
-                    if L in (e1, e2):
-                        return (1, M)      # min(begin + B, n) == begin + min(B, n - begin) <= n
-                    return None
-                beg_paths = {p: (0, maxbegin) for p, e in defs.items() if lin(tu, e, env) == want_b and p[0] == 'v'}
-                rr = {ppath: (1, M), bp: (0, maxb)}
-                rr.update(beg_paths)
-                iv2 = Ival(tu, rr, defs, special, N, M)
-                for p_, e_ in defs.items():
-                    if p_ in beg_paths:
-                        iv2.ev(e_)
-                iv2.ev(fa[0])
-                iv2.ev(fa[1])
+                    def special(L):
+                        if L == N - want_b:
+                            return (1, nhi)
+                        if L == want_b:
+                            return (0, maxbegin)
+                        if L in (e1, e2):
+                            return (1, nhi)      # min(begin + B, n) == begin + min(B, n - begin) <= n
+                        return None
+                    beg_paths = {p: (0, maxbegin) for p, e in defs.items() if lin(tu, e, env) == want_b and p[0] == 'v'}
+                    rr = {ppath: (1, nhi), bp: (0, maxb)}
+                    rr.update(beg_paths)
+                    iv_ = Ival(tu, rr, defs, special, N, nhi)
+                    for p_, e_ in defs.items():
+                        if p_ in beg_paths:
+                            iv_.ev(e_)
+                    iv_.ev(fa[0])
+                    nb = len(iv_.wraps)
+                    iv_.ev(fa[1])
+                    return iv_.wraps, nb
+                wraps2, nbeg = lambda_wraps(M)
+                begin_ids = {w_[0]['id'] for w_ in wraps2[:nbeg]}
                 seenw = set()
-                for wn, wiv, wt in iv2.wraps:
+                for wn, wiv, wt in wraps2:
                     if wn['id'] in seenw:
                         continue
                     seenw.add(wn['id'])
@@ -4123,9 +4320,15 @@ def check_blocks(ctx, tu, cfgname):
                                     'max+1 it is 0: every block is [0, 0) and no index is ever run)'
                                     % (wiv[0], '(%s)%s' % (wt, show(tu, tu.kids(wn)[-1])), wt, irange(wt)[1], tu.sd(wn).get('cv', '?'))))
                         continue
-                    bad.append(('end-wrap', 'in the last block `%s` can reach %d, beyond the range of its type %s (for n within %d of the '
-                                'maximum): the block end wraps below its begin (unsigned) or overflows (signed) and the last indices are never run'
-                                % (show(tu, wn), wiv[1], wt, B)))
+                    thr = smallest_n(lambda x: wn['id'] in {w_[0]['id'] for w_ in lambda_wraps(x)[0]}, M)
+                    if wn['id'] in begin_ids:
+                        bad.append(('begin-wrap', 'computing the block begin, `%s` can reach %d, beyond the range of its type %s (for '
+                                    'counts n >= %d): the begin of the later blocks wraps (unsigned) or overflows (signed), so they run '
+                                    'indices other than their own' % (show(tu, wn), wiv[1], wt, thr)))
+                    else:
+                        bad.append(('end-wrap', 'in the last block `%s` can reach %d, beyond the range of its type %s (for counts '
+                                    'n >= %d): the block end wraps below its begin (unsigned) or overflows (signed) and the last indices '
+                                    'are never run' % (show(tu, wn), wiv[1], wt, thr)))
         if obj_path(tu, args[1]) is not None:
             pass
         for u in sorted(set(und)):
